@@ -127,3 +127,25 @@ def genCast2 (c : Cfg) (p : Nat) : Msg :=
   { sender := p, entries := (List.range c.nv).map fun v => { key := ⟨v, p, 0⟩ } }
 
 end CharonV.FrostP2P
+
+namespace CharonV.FrostP2P
+
+/-- What the network may hand to a node's round-1 callbacks (`d1`: everything delivered to the
+round-1 cast callback, `dp`: to the p2p callback — any order, any repetitions, any junk):
+nothing carries the node's own id as sender (libp2p never dials itself); a broadcast bearing a
+member's id is that member's genuine broadcast (bcast authenticates the sender; an honest member
+sends one message per round — replays are allowed); a *valid* share message bearing a member's id
+is genuine (invalid ones from anybody are allowed). -/
+structure Fair1 (c : Cfg) (d1 dp : List Msg) : Prop where
+  notSelf1 : ∀ m ∈ d1, m.sender ≠ c.self
+  notSelfP : ∀ m ∈ dp, m.sender ≠ c.self
+  honest1  : ∀ m ∈ d1, isMember c m.sender = true → m = genCast1 c m.sender
+  honestP  : ∀ m ∈ dp, isMember c m.sender = true →
+    firstErr c m.sender c.self none m.entries = none → m = genP2P c m.sender
+
+/-- the same for the round-2 cast callback. -/
+structure Fair2 (c : Cfg) (d2 : List Msg) : Prop where
+  notSelf : ∀ m ∈ d2, m.sender ≠ c.self
+  honest  : ∀ m ∈ d2, isMember c m.sender = true → m = genCast2 c m.sender
+
+end CharonV.FrostP2P
